@@ -159,6 +159,8 @@ pub open spec fn is_opt<W, R, T>(r: RuntimeResult<TailedEvalResult<W, R, T>>, o:
         && t->Value_0->Ok_0.value->Native_0.value == o)
 }
 
+// @@INCLUDE stdx@@
+
 // @@EXTRACTED@@
 
 } // verus!
